@@ -9309,7 +9309,7 @@ class SVG(Group):
 
                     s.render(ppi=ppi, width=width, height=height, viewbox=s.viewbox)
                     width, height = s.width, s.height
-                    if s.viewbox is not None:
+                    if s.viewbox is not None or s.height == 0 or s.width == 0:
                         try:
                             if s.height == 0 or s.width == 0:
                                 raise ZeroDivisionError
